@@ -41,9 +41,9 @@ def build_props(PROPS):
         level_note='IDNA conversion itself is the assumed contract A7. A1. LABELS_ALLOW_UNDERSCORE variant: C17.',
         trusted_base=TB_COMMON, technique=TECH)
     PROPS['C05'] = dict(
-        level='proof', quick=ALL(['is_ipv4', 'is_ipv6', 'is_ipaddr'] + E_LIT), thorough=[],
+        level='proof', quick=ALL(['is_ipv4', 'is_ipv6', 'is_ipaddr'] + E_LIT), thorough=ALL(['lemma_ipv6']),
         level_text='is_ipv4 (loop contract, every length) is proved against the IPv4 automaton: YES => accepted by the automaton; conversely dotted quads with non-zero first octet => YES. is_ipv6 is BOUNDED: for inputs of at most 45 bytes its loop is fully unwound (18 iterations, unwinding assertion discharged) and it is shown against the RFC 4291 automaton (YES => accepted; RFC 5321 shapes => YES; dotted-quad tail handed to is_ipv4 from the start of its group); longer IPv6 texts are not covered and the job is not counted as proved. The e-mail functions are proved to accept a literal only as "[" addr "]" with nothing after, v4 by is_ipv4, v6 only after the tag "IPv6:" (or untagged when the first byte is a digit), flags by family.',
-        level_note='BOUNDED PART: is_ipv6 only for address texts of at most 45 bytes (an RFC 4291 address without superfluous leading zeros in a dotted-quad tail has at most 45). strspn models A5, strchr/strrchr A3, tag comparison oracle A6; precondition of is_ipv4/is_ipv6: the closing bracket follows (true at every call site). The converse for IPv6 is stated for inputs the scan reads to the end.',
+        level_note='BOUNDED PART: is_ipv6 only for address texts of at most 45 bytes (an RFC 4291 address without superfluous leading zeros in a dotted-quad tail has at most 45). strspn models A5, strchr/strrchr A3, tag comparison oracle A6; precondition of is_ipv4/is_ipv6: the closing bracket follows (true at every call site). The converse for IPv6 (RFC 5321 shapes => YES) is stated for inputs the scan reads to the end; that an early NO is always justified is NOT an obligation (an attempt to state it made symbolic execution crawl); job lemma_ipv6 proves the two counting facts that argument needs (at most 7 colons, five hex digits are fatal).',
         trusted_base=TB_COMMON, technique=TECH)
     PROPS['C07'] = dict(
         level='proof', quick=ALL(['is_tld', 'tld_table', 'email_822_host', 'is_utf8_domain']),
